@@ -35,7 +35,7 @@ class Layout:
     def record_span(self, r):
         """(start, end) file byte range that holds logical record r (TIF markers, headers, trailers included)."""
         prs = self.records[r]['prs']
-        return prs[0][0], prs[-1][1] + prs[-1][2]
+        return prs[0][0], prs[-1][1] + prs[-1][2] + (self.records[r].get('pads') or [0])[-1]
 
 
 def physical_records(payload, max_pr_len, rec_num=False, file_num=None, check=False, rec_counter=None):
@@ -79,7 +79,7 @@ def build_file(records, max_pr_len=65535, rec_num=False, file_num=None, check=Fa
     fmt = {'normal': '<3L', 'reversed': '>3L'}.get(tif)
     prev = 0
     for payload in records:
-        info = {'start': len(out), 'prs': []}
+        info = {'start': len(out), 'prs': [], 'pads': []}
         off = 0
         for pr, plen in physical_records(payload, max_pr_len, rec_num, file_num, check, counter):
             start = len(out)
@@ -94,6 +94,7 @@ def build_file(records, max_pr_len=65535, rec_num=False, file_num=None, check=Fa
             out += pr
             out += b'\x00' * npad
             info['prs'].append((start, hdr, len(pr), hdr + 4, plen))
+            info['pads'].append(npad)
             off += plen
         lay.records.append(info)
     lay.eof_pos = len(out)
